@@ -150,6 +150,7 @@ package percolator
 //@   ensures [record-before-lock-removal] old(lockDeletes) == 0 ==> (!writeAfterLockDelete || old(writeAfterLockDelete))
 //@   ensures [at-most-one-record] writeCFSets <= old(writeCFSets) + 1 && writeCFSets >= old(writeCFSets)
 //@   ensures [already-decided-writes-no-record] lookups == old(lookups) + 1 && lastFound ==> writeCFSets == old(writeCFSets)
+//@   ensures [success-removes-the-lock] result == nil ==> lockDeletes > old(lockDeletes)
 //@   modifies ghost(lookups), ghost(lastFound), ghost(lastRollback), ghost(sawRollback), ghost(dbWrites), ghost(writeCFSets), ghost(lockDeletes), ghost(defaultDeletes), ghost(writeAfterLockDelete)
 
 //@ func rollbackKey
